@@ -1,11 +1,18 @@
 """C06 - resolution does not depend on registration or iteration order.
 
-Correspondence: overload families biased to several simultaneously compatible candidates are
-registered on `ListContext`s (a Context subclass whose get_functions returns the overloads in a
+Correspondence: overload families biased to several simultaneously compatible candidates (lattice types,
+keyword-only parameters with and without defaults, */**, defaults the call leaves out) are
+(a) registered on `ListContext`s (a Context subclass whose get_functions returns the overloads in a
 prescribed order); every call is resolved under all permutations of every layer with <= 4 overloads
 (random ones beyond) by the real `runner.call` and by the Lean model (whose layer lists are given in
-the same order).  Oracle (real code alone): ONE outcome - overload or error class, evaluation log,
-bound arguments - per family and call across all enumeration orders; supported by plain set-backed
+the same order);
+(b) registered - the same FunctionDefinition objects with their exclusive flags, some layers with only SOME
+registrations saying exclusive=True - in every order (all permutations of the whole sequence for <= 4
+overloads, per-layer permutations and random interleavings beyond) into fresh plain set-backed Context
+chains through the public register_function, and the Lean model of register_function
+(`Yaql.ResolveCtx.run`) is told the same registrations in the same order.
+Oracle (real code alone): ONE outcome - overload or error class, evaluation log, bound arguments - per
+family and call across all enumeration AND registration orders; supported by plain set-backed
 Contexts in subprocesses with different PYTHONHASHSEED / allocation patterns / registration orders."""
 import itertools
 import json
@@ -27,7 +34,9 @@ REQUIRED_THEOREMS = [P + n for n in (
         'register_perm_invariant', 'family_register_perm', 'resolve_register_perm_invariant', 'exclusive_any',
         'last_registration_wins_order_dependent')]
 TRUSTED = ['resolvelib.ListContext: the enumeration order of a layer is what its get_functions returns',
-           'resolvelib.enc_fd / enc_arg (encoding of the real objects for the model)']
+           'resolvelib.enc_fd / enc_arg (encoding of the real objects for the model)',
+           'the reading of exclusive=True: a layer is exclusive for a name when ANY registration of that name in it said '
+           'so (contexts.py: _exclusive_funcs is a set of names that register_function only adds to)']
 ASSUMPTIONS = ['the enumeration order of one context is the same for the two passes of one choose_overload call '
                '(true for a set that is not mutated in between)']
 
@@ -292,13 +301,29 @@ def run_family(case, drv, rng, tier, hist=None, stats=None):
     if not case.get('no_reg_orders'):
         regs = reg_orders(rng, case['layers'], tier)
         n_orders += len(regs)
-        for ro in regs:
+        rmodels = None
+        if drv:
+            # the model of register_function (Yaql.ResolveCtx.run) is told the same registrations in the same order
+            nl = len(case['layers'])
+            defs = [rl.enc_fd(fd, i) for i, fd in sorted(fam.fds.items())]
+            hists = []
+            for ro in regs:
+                steps = [dict(k='root')] + [dict(k='child', i=k) for k in range(nl - 1)]
+                for li, fid in ro:
+                    if fid in fam.fds:
+                        o = next(o for o in case['layers'][li]['fns'] if o['id'] == fid)
+                        steps.append(dict(k='reg', i=nl - 1 - li, name='f', fid=fid,
+                                          x=bool(case['layers'][li].get('x')) or bool(o.get('x'))))
+                steps += [dict(k='call', i=nl - 1, name='f', call=c.enc()) for c in calls]
+                hists.append(dict(defs=defs, steps=steps))
+            rmodels = drv.ask(dict(p='Resolve', op='hist', lat=rl.T.lattice(), hists=hists))['out']
+        for ri, ro in enumerate(regs):
             f2 = rl.Family(case['layers'], reg_order=ro, fds=fam.fds)
             for ci, call in enumerate(calls):
                 r = rl.run_real(f2, call)
                 seen[ci].setdefault(outcome_key(r), ('registration order %r' % (ro,), r))
-                if models is not None and 'delegate_error' not in r:
-                    m = models[0][ci]
+                if rmodels is not None and 'delegate_error' not in r:
+                    m = rmodels[ri][ci]
                     m_out = m.get('err', m.get('id'))
                     r_out = r.get('err', r.get('id'))
                     mlog = [p for p in m['log'] if p < rl.SILENT]
@@ -411,11 +436,15 @@ def run(env, res):
     drv = env['driver']
     tier = env['tier']
     rng = common.make_rng(env['seed'], 'C06')
-    n_fam = 1800 if tier == "quick" else 18000
-    res.rule = ('overload families of 1-2 layers with 2-6 overloads of equal arity over the lattice Base>L,R>D (+ shapes: '
+    n_fam = 1700 if tier == "quick" else 8000
+    res.rule = ('overload families of 1-3 layers with 2-6 overloads of equal arity over the lattice Base>L,R>D (+ shapes: '
                 'one-below-two-incomparable, lazy/eager mixes, no_kwargs mixes with keyword calls, general smart types, '
-                'tuple/class mixes), 2 calls each with arguments that satisfy several overloads at once; every call under '
-                'all permutations of each layer of <= 4 overloads (random beyond); distinct = distinct (family, calls); '
+                'tuple/class mixes, keyword-only parameters with/without defaults, */**, defaults the call omits; layers '
+                'exclusive through all or through only some of their registrations), 2 calls each with arguments that '
+                'satisfy several overloads at once; every call under all permutations of the enumeration order of each '
+                'layer of <= 4 overloads (random beyond) AND under all registration orders (<= 4 overloads: every '
+                'permutation of the whole register_function sequence; beyond: per-layer permutations and random '
+                'interleavings) on fresh set-backed contexts; distinct = distinct (family, calls); '
                 'non-trivial = some call has >= 2 type-compatible candidates or an ambiguity')
     hist = {}
     if env['replay']:
@@ -458,7 +487,7 @@ def run(env, res):
         nontrivial = any(next(iter(s.values()))[1].get('err') in (None, 'Ambiguous', 'TypeError') for s in seen)
         res.case(common.digest(case), nontrivial, sample=case if k < 2 else None)
         res.traces += n * len(case['calls']) if drv else 0
-        if len(kept) < (150 if tier == 'quick' else 1500) and shape != 'hand':
+        if len(kept) < (150 if tier == 'quick' else 1000) and shape != 'hand':
             kept.append(case)
         done = set()
         for kind, key, msg in fs:
@@ -479,14 +508,20 @@ def run(env, res):
     return res
 
 
-LEVEL_TEXT = ('Lean 4 theorem perm_invariant: the code-shaped model of runner.call/choose_overload gives the same overload, '
-              'bound arguments, evaluation log and error class for every layer-wise permutation of the overloads - in full, '
+LEVEL_TEXT = ('Lean 4 theorems: perm_invariant - the code-shaped model of runner.call/choose_overload gives the same overload, '
+              'bound arguments, evaluation log and error class for every layer-wise permutation of the overloads, in full, '
               'for every class graph, family and call (resolve = resolveSpec, and visible_perm, stage_perm, choose_perm show '
-              'each stage of resolveSpec is a function of the overload set); old_order_dependent and '
-              'old_tuple_order_dependent document the two repaired sources of order dependence. Tie: real runner.call on '
-              'contexts with a controlled enumeration order, all permutations, against the model given the same orders; '
-              'set-backed contexts in subprocesses.')
-LEVEL_NOTE = ('trusted: Lean kernel; Yaql/Model/Types.lean, Resolve.lean; ListContext as the means of controlling the '
-              'enumeration order; the harness.')
-TECHNIQUE = 'Lean 4 proof (permutation invariance stage by stage) + exhaustive permutation replay on the real code'
+              'each stage of resolveSpec is a function of the overload set); C06Reg.register_perm_invariant - the model of '
+              'Context.register_function (sets of definitions, set of exclusive names) leaves the same contexts behind for '
+              'every order of the same registrations, hence (family_register_perm, resolve_register_perm_invariant) every '
+              'call from every context - plain, multi, linked - resolves the same; exclusive_any - a layer is exclusive '
+              'iff some registration said so; old_order_dependent, old_tuple_order_dependent and '
+              'last_registration_wins_order_dependent document the repaired / excluded sources of order dependence. Tie: '
+              'real runner.call on contexts with a controlled enumeration order, all permutations, against the model given '
+              'the same orders; the same families registered in all orders into fresh set-backed contexts against the '
+              'model of register_function told the same orders; set-backed contexts in subprocesses.')
+LEVEL_NOTE = ('trusted: Lean kernel; Yaql/Model/Types.lean, Resolve.lean, Context.lean, ResolveCtx.lean; ListContext as the '
+              'means of controlling the enumeration order; the harness.')
+TECHNIQUE = ('Lean 4 proof (permutation invariance stage by stage; commuting-fold argument for registrations) + exhaustive '
+             'permutation replay of enumeration and registration orders on the real code')
 DESIGN_REF = 'DESIGN.md section 5, C06'
